@@ -35,10 +35,12 @@ type SrvCfg struct {
 	RefLimitCls string `json:"refLimitCls"` // class name of the referrers limit for the model: "unl" | "k1" | "k2"
 }
 
-// DefaultCfg is the configuration most histories run under.
+// DefaultCfg is the configuration most histories run under. The collection that Close performs on a directory store
+// is a no-op under it (nothing untagged, dangling or subject-less is collected, everything is younger than the grace
+// period); collection policies are exercised by the GC scenarios (C05, C06).
 func DefaultCfg(store string) SrvCfg {
 	return SrvCfg{Store: store, Push: true, Delete: true, BlobDelete: true, Referrers: true,
-		Untagged: false, Dangling: false, WithSubj: true, EmptyRepo: true, Grace: true, ManLimit: 3000, RefLimitCls: "unl"}
+		Untagged: false, Dangling: false, WithSubj: false, EmptyRepo: true, Grace: true, ManLimit: 3000, RefLimitCls: "unl"}
 }
 
 // Srv wraps a live olareg server on a directory (if any).
